@@ -19,6 +19,7 @@ pub mod rrun {
     }
     include!("generic.rs");
 }
+pub mod scen_batch;
 pub mod scen_core;
 
 use util::Out;
@@ -42,6 +43,7 @@ fn main() {
     match args[1].as_str() {
         "C01" => scen_core::c01(&opts, &mut out),
         "C02" => scen_core::c02(&opts, &mut out),
+        "C03" => scen_batch::c03(&opts, &mut out),
         other => {
             eprintln!("unknown scenario {}", other);
             std::process::exit(2);
